@@ -2,12 +2,13 @@ SPECIFICATION Spec
 CONSTANTS
   NPages = 4
   StreamPats = {1, 2, 3}
+  Fanouts = {0, 1, 2, 3}
   MaxAdds = 2
   Kinds = {"text", "image", "pdf"}
   Sels1 = {1, 2, 3, 4, 5, 6, 7}
   Sels2 = {1, 2, 3, 4}
   SelsR = {1, 2, 4}
-  FreeDesc = TRUE
+  FreeDesc = FALSE
   FreeKind2 = TRUE
   Emit = TRUE
 INVARIANTS WInRange CleanEnd LastRemoveSound EmitCase
